@@ -10,6 +10,8 @@ import (
 	"golang.org/x/tools/go/ssa"
 )
 
+const chLenKey = "CHLEN"
+
 func (c *FnCtx) execBuiltin(x *ssa.Call, b *ssa.Builtin, common *ssa.CallCommon, st *State, reach *Term, setResult func(Val)) {
 	u := c.g.u
 	switch b.Name() {
@@ -32,8 +34,15 @@ func (c *FnCtx) execBuiltin(x *ssa.Call, b *ssa.Builtin, common *ssa.CallCommon,
 		case *types.Pointer:
 			setResult(Val{kind: vTerm, t: intLit(at.Elem().Underlying().(*types.Array).Len())})
 		case *types.Chan:
+			// the length of a channel is whatever it is at the moment of the observation (other
+			// goroutines send and receive); CHLEN remembers the value last observed per channel
+			u.declareFun("chancap", []Sort{SInt}, SInt)
+			ch := c.term(a)
 			r := c.fresh("chanlen", SInt)
-			c.define(ge(r, tZero))
+			c.define(and(ge(r, tZero), le(r, mk(SInt, "chancap", ch))))
+			c.g.heapSorts[chLenKey] = arraySort(SInt, SInt)
+			h := c.heap(st, chLenKey, arraySort(SInt, SInt))
+			st.heaps[chLenKey] = store(h, ch, r)
 			setResult(Val{kind: vTerm, t: r})
 		default:
 			c.abort("len of %s", a.Type())
@@ -45,6 +54,11 @@ func (c *FnCtx) execBuiltin(x *ssa.Call, b *ssa.Builtin, common *ssa.CallCommon,
 			setResult(Val{kind: vTerm, t: sCap(c.term(a))})
 		case *types.Array:
 			setResult(Val{kind: vTerm, t: intLit(at.Len())})
+		case *types.Chan:
+			u.declareFun("chancap", []Sort{SInt}, SInt)
+			r := mk(SInt, "chancap", c.term(a))
+			c.define(ge(r, tZero))
+			setResult(Val{kind: vTerm, t: r})
 		default:
 			r := c.fresh("cap", SInt)
 			c.define(ge(r, tZero))
